@@ -387,8 +387,35 @@ func (o *allocOracle) after(sys verifrt.System, hist []verifrt.Event, ev verifrt
 							if !setAdmissible(w, svcs[ok2], ipsOf(st)) {
 								continue
 							}
+							// ... and it was not entitled if a third service recorded on the same address cannot share with it
+							// (whichever of the two is re-asserted first keeps the address, as in the keep oracle)
+							contested := false
+							for ok3, st3 := range s.refStatuses {
+								if ok3 == ok2 || ok3 == k || svcs[ok3] == nil {
+									continue
+								}
+								for _, rip3 := range ipsOf(st3) {
+									if rip3.Equal(ip) {
+										if c3, _ := refalloc.ShareCompatible(svcs[ok2], svcs[ok3]); !c3 || !refalloc.SamePolicyClass(svcs[ok2], svcs[ok3]) {
+											contested = true
+										}
+									}
+								}
+							}
+							if contested {
+								continue
+							}
+							via := ""
+							for _, h := range statusHold[ip.String()] {
+								hRef := ipsOf(s.refStatuses[h])
+								if _, _, prefer, _ := refalloc.Families(svcs[h]); h != k && h != ok2 && prefer && len(hRef) == 1 && !hRef[0].Equal(ip) {
+									// the address was first taken by a PreferDualStack service topping up its second family during the
+									// first pass (known finding); this service only joined it there
+									via = " via=preferdualstack-service-topping-up-its-second-family"
+								}
+							}
 							if okc, _ := refalloc.ShareCompatible(svc, svcs[ok2]); !okc && s.refSvcs[ok2] == userPart(svcs[ok2]) {
-								o.violate(s, hist, "C06 stolen: service without recorded address obtained an address recorded for another service",
+								o.violate(s, hist, "C06 stolen: service without recorded address obtained an address recorded for another service"+via,
 									fmt.Sprintf("%s had no address at the crash and now holds %s, which was recorded for %s", k, ip, ok2))
 							}
 						}
@@ -473,6 +500,9 @@ func (o *allocOracle) keepOracle(s *ctlSys, hist []verifrt.Event, prop string, s
 			for _, h := range statusHold[ip.String()] {
 				if h == k {
 					continue
+				}
+				if strings.HasPrefix(takenBy, "preferdualstack-service-topping-up") {
+					continue // the root cause is already named: a co-tenant that joined the topping-up service afterwards is a consequence
 				}
 				takenBy = "other-service"
 				hRef := ipsOf(s.refStatuses[h])
